@@ -899,6 +899,10 @@ func c17(c *core.Ctx) {
 		c.Floor("Verify/non-false-returns", n, 1)
 	})
 
+	c.Clause("C17.10", "a Merkle root is computed without touching the caller's list, and a proof is walked by prefix: every value stored into MerkleTree.nodes is made in place or extends nodes itself; the proof walker compares a short node's key with the front of the remaining search key")
+	c.Run("merkle-nodes-fresh", func() { c17MerkleNodesFresh(c) })
+	c.Run("proof-walker-prefix", func() { c17ProofWalkerPrefix(c) })
+
 	c.NotDecidedf("the root as a function of the key/value SET (independence from insertion order, from commits and from cache eviction): a mutant inside Trie.insert / Trie.delete, hasher.hash or hasher.hashChildren is NOT detected")
 	c.NotDecidedf("proof soundness (merkle.FindSiblingNodes / merkle.Verify) and the Merkle tree shape incl. the odd-tail rule: a mutant inside merkle.calculateNodes is NOT detected")
 	c.NotDecidedf("that the element hashes cover all fields (C02.2, C04.1, C14.2 decide that), collision resistance of Keccak, RLP canonicity of node encodings")
